@@ -517,6 +517,23 @@ func Xor(a, b *Term) *Term {
 	if a == b {
 		return Const(w, 0)
 	}
+	// (x ^ y) ^ y -> x
+	if a.op == OpXor {
+		if a.args[1] == b {
+			return a.args[0]
+		}
+		if a.args[0] == b {
+			return a.args[1]
+		}
+	}
+	if b.op == OpXor {
+		if b.args[1] == a {
+			return b.args[0]
+		}
+		if b.args[0] == a {
+			return b.args[1]
+		}
+	}
 	if x, ok := a.ConstVal(); ok {
 		if y, ok := b.ConstVal(); ok {
 			return Const(w, x^y)
